@@ -601,16 +601,18 @@ Record pmodel := mkPM {
   pm_stmts : list stm;
   pm_params : list (id * Q * bool);
   pm_rvs : list rdist;
-  pm_dvs : list id
+  pm_dvs : list id;
+  pm_value_type : positive       (* value_type: 1 PREDICTION, 2 LIKELIHOOD, 3 -2LL, 4 a symbol *)
 }.
 
 (* convert_model(model, 'generic'): model/external/generic/generic.py passes every component on;
    convert_model(model, 'nonmem'): model/external/nonmem/model.py replaces the components of a template model by
    the given ones and calls update_source, which must not change them *)
+(* (value_type is passed on by both since commit 7115d86) *)
 Definition convert_generic (m : pmodel) : pmodel :=
-  mkPM (pm_stmts m) (pm_params m) (pm_rvs m) (pm_dvs m).
+  mkPM (pm_stmts m) (pm_params m) (pm_rvs m) (pm_dvs m) (pm_value_type m).
 Definition convert_nonmem (m : pmodel) : pmodel :=
-  mkPM (pm_stmts m) (pm_params m) (pm_rvs m) (pm_dvs m).
+  mkPM (pm_stmts m) (pm_params m) (pm_rvs m) (pm_dvs m) (pm_value_type m).
 
 (* RandomVariables.parameter_names: the symbols of the variances *)
 Definition rdist_params (d : rdist) : list id :=
@@ -624,7 +626,7 @@ Definition split_joint (inds : list id) (m : pmodel) : pmodel :=
   let after := flat_map rdist_params r' in
   mkPM (pm_stmts m)
        (filter (fun p => negb (memp (fst (fst p)) before && negb (memp (fst (fst p)) after))) (pm_params m))
-       r' (pm_dvs m).
+       r' (pm_dvs m) (pm_value_type m).
 
 (* what create_joint_distribution may do to the components (its choice of covariance parameters and their
    initial estimates is C11's subject): statements and dependent variables untouched, the same random variable
